@@ -1,1 +1,30 @@
-//! placeholder
+//! Small models of std adapters whose generic machinery defeats CBMC's
+//! constant propagation (measured: `filter_map(Result::ok)` through
+//! `find_map`/`try_fold`/`ControlFlow` costs 500k symex steps on a 2-record
+//! concrete stream; this adapter costs 12k).
+
+/// Model of `Iterator::filter_map(Result::ok)`: yields the `Ok` payloads, skips `Err`s.
+pub struct OkOnly<I> {
+    iter: I,
+}
+
+impl<T, E, I: Iterator<Item = Result<T, E>>> Iterator for OkOnly<I> {
+    type Item = T;
+    fn next(&mut self) -> Option<T> {
+        loop {
+            match self.iter.next() {
+                None => return None,
+                Some(Ok(v)) => return Some(v),
+                Some(Err(_)) => {}
+            }
+        }
+    }
+}
+
+pub trait OkOnlyExt: Iterator + Sized {
+    fn verif_ok_only(self) -> OkOnly<Self> {
+        OkOnly { iter: self }
+    }
+}
+
+impl<I: Iterator> OkOnlyExt for I {}
